@@ -1,6 +1,32 @@
 import SJ.Drv.Base
 import SJ.Spec.Pointer
 import SJ.Model.ValueOps
+import SJ.Spec.Index
+import SJ.Spec.PrimEq
+import SJ.Spec.JsonMacro
+import SJ.Model.ValueIndex
+import SJ.Model.PartialEq
+import SJ.Model.JsonMacro
+import SJ.Drv.Mach
+/-!
+Driver handlers for C18.
+
+```
+ptr / ptrmut <doc> <pointer hex>         => N | S<node or document after the write>
+vget      <probe> <doc>                  => <get: N|S<node>>|<get_mut then `*r = "#"`: N|S<doc>>
+vindex    <probe> <doc>                  => <&doc[probe]>
+vindexmut <cfg> <probe> <doc>            => PANIC | <node addressed>|<doc after `*r = "#"`>
+vtake     <doc> <pointer hex>            => N | <taken>|<doc after>
+peq       <ty> <comparand> <value>       => one t/f per impl form (4 for numbers and bool, 6 for strings)
+jsonm     <cfg> <token tree>             => S<value built by json!>
+jsonp     <cfg> <token tree> <text hex>  => V<from_str(equivalent JSON text)> | E:…
+jsonmbuild <cfg> <count>                 => OK | E<hex of the first compiler error>
+```
+probe: `u<n>` usize, `s<hex>` str, `S<hex>` String, `r<probe>` a reference to one.
+comparand: decimal integer; `f32`/`f64`: hex bits; `bool`: t/f; `str`: hex.
+token tree: `N T F` idents, `c` comma, `k` colon, `L<v>` literal, `E<v>` expression, `P<v>` parenthesised,
+`A<n>;…` / `O<n>;…` groups of n token trees (`<v>` in the value wire codec).
+-/
 namespace SJ.Drv.C18
 open SJ SJ.Drv
 
@@ -32,6 +58,223 @@ def ptrmut : Handler := fun args impl =>
     | _, _ => bad "decode"
   | _ => bad "arity"
 
-def handlers : List (String × Handler) := [("ptr", ptr), ("ptrmut", ptrmut)]
+/-! ## get / Index / IndexMut / take -/
+
+open SJ.Model.ValueIndex in
+def decProbeChars : Nat → List Char → Option Probe
+  | 0, _ => none
+  | _ + 1, 'u' :: r => (natOfDecChars r).map .usize
+  | _ + 1, 's' :: r => (bytesOfHex (String.ofList r)).map .str
+  | _ + 1, 'S' :: r => (bytesOfHex (String.ofList r)).map .string
+  | fuel + 1, 'r' :: r => (decProbeChars fuel r).map .ref
+  | _, _ => none
+
+def decProbe (s : String) : Option Model.ValueIndex.Probe := decProbeChars (s.length + 1) s.toList
+
+def probeSel : Model.ValueIndex.Probe → Spec.Index.Sel
+  | .usize i => .pos i
+  | .str k => .key k
+  | .string k => .key k
+  | .ref p => probeSel p
+
+def poOfTag (t : String) : Bool := (t.splitOn "+").contains "po"
+
+def vget : Handler := fun args impl =>
+  match args with
+  | [ph, ve] =>
+    match decProbe ph, decodeJV ve with
+    | some p, some v =>
+      let m := showOpt (Model.ValueIndex.get p v) ++ "|" ++ showOpt (Model.ValueIndex.getMutSet p sentinel v)
+      let sel := probeSel p
+      let r := Spec.Index.select sel v
+      let s := showOpt r ++ "|" ++ showOpt (r.map fun _ => Spec.Index.write sentinel sel v)
+      { model := m, spec := if s == impl then none else some s!"C18 get/get_mut: direct container access gives {s}" }
+    | _, _ => bad "decode"
+  | _ => bad "arity"
+
+def vindex : Handler := fun args impl =>
+  match args with
+  | [ph, ve] =>
+    match decProbe ph, decodeJV ve with
+    | some p, some v =>
+      let s := encJV (Spec.Index.orNull (Spec.Index.select (probeSel p) v))
+      { model := encJV (Model.ValueIndex.index p v),
+        spec := if s == impl then none else some s!"C18 Index: direct container access (or null) gives {s}" }
+    | _, _ => bad "decode"
+  | _ => bad "arity"
+
+def vindexmut : Handler := fun args impl =>
+  match args with
+  | [c, ph, ve] =>
+    match decProbe ph, decodeJV ve with
+    | some p, some v =>
+      let po := poOfTag c
+      let m := match Model.ValueIndex.indexMut po p v with
+        | .panic => "PANIC"
+        | .ok (doc, loc) =>
+          encJV ((Model.ValueIndex.readLoc loc doc).getD (.str [0x3f])) ++ "|" ++ encJV (Model.ValueIndex.writeLoc sentinel loc doc)
+      let sel := probeSel p
+      let s := match Spec.Index.indexMut po sel v with
+        | none => "PANIC"
+        | some doc => encJV (Spec.Index.orNull (Spec.Index.select sel doc)) ++ "|" ++ encJV (Spec.Index.write sentinel sel doc)
+      { model := m, spec := if s == impl then none else some s!"C18 IndexMut: insert-if-missing then address gives {s}" }
+    | _, _ => bad "decode"
+  | _ => bad "arity"
+
+def vtake : Handler := fun args impl =>
+  match args with
+  | [ve, ph] =>
+    match decodeJV ve, bytesOfHex ph with
+    | some v, some p =>
+      let sh (o : Option (JV × JV)) : String := match o with
+        | none => "N"
+        | some (a, b) => encJV a ++ "|" ++ encJV b
+      let s := sh (match Spec.Pointer.eval v p with
+        | none => none
+        | some node => (Spec.Pointer.set v p .null).map fun d => (node, d))
+      { model := sh (Model.ValueIndex.takeAt v p),
+        spec := if s == impl then none else some s!"C18 take: must return the addressed node and leave null there: {s}" }
+    | _, _ => bad "decode"
+  | _ => bad "arity"
+
+/-! ## PartialEq with primitives -/
+
+def intOfDec (s : String) : Option Int :=
+  match s.toList with
+  | '-' :: r => (natOfDecChars r).map fun n => -(n : Int)
+  | r => (natOfDecChars r).map fun n => (n : Int)
+
+def primTyOfName : String → Option Gen.PrimTy
+  | "i8" => some .i8 | "i16" => some .i16 | "i32" => some .i32 | "i64" => some .i64 | "isize" => some .isize
+  | "u8" => some .u8 | "u16" => some .u16 | "u32" => some .u32 | "u64" => some .u64 | "usize" => some .usize
+  | "f32" => some .f32 | "f64" => some .f64 | "bool" => some .bool
+  | _ => none
+
+def tf (b : Bool) : String := if b then "t" else "f"
+def rep (n : Nat) (s : String) : String := String.join (List.replicate n s)
+
+def peq : Handler := fun args impl =>
+  match args with
+  | [tyName, ce, ve] =>
+    match decodeJV ve with
+    | none => bad "decode"
+    | some v =>
+      if tyName == "str" then
+        match bytesOfHex ce with
+        | some s =>
+          let want := rep 6 (tf (Spec.PrimEq.holdsStr s v))
+          { model := rep 6 (tf (Model.PartialEq.eqStr s v)),
+            spec := if want == impl then none else some s!"C18 PartialEq<str/String>: the value holds that string: {want}" }
+        | none => bad "hex"
+      else
+      match primTyOfName tyName with
+      | none => bad "type"
+      | some ty =>
+        let comparand : Option (Model.PartialEq.Comparand × Bool) :=
+          match ty with
+          | .f32 => (natOfHexChars ce.toList).map fun n => (.f32 (UInt32.ofNat n), Spec.PrimEq.holdsF32 (UInt32.ofNat n) v)
+          | .f64 => (natOfHexChars ce.toList).map fun n => (.f64 (UInt64.ofNat n), Spec.PrimEq.holdsF64 (UInt64.ofNat n) v)
+          | .bool => if ce == "t" then some (.bool true, Spec.PrimEq.holdsBool true v)
+                     else if ce == "f" then some (.bool false, Spec.PrimEq.holdsBool false v) else none
+          | _ => (intOfDec ce).bind fun x =>
+              match Spec.PrimEq.intRange ty with
+              | some (lo, hi) => if lo ≤ x && x ≤ hi then some (.int x, Spec.PrimEq.holdsInt x v) else none
+              | none => none
+        match comparand with
+        | none => bad "comparand"
+        | some (c, holds) =>
+          let want := rep 4 (tf holds)
+          { model := rep 4 (tf (Model.PartialEq.eqPrim ty c v)),
+            spec := if want == impl then none else
+              some s!"C18 PartialEq<{tyName}>: true exactly when the value holds that value: {want}" }
+  | _ => bad "arity"
+
+/-! ## json! -/
+
+open SJ.Spec.JsonMacro in
+def decTT : Nat → List Char → Option (TT × List Char)
+  | 0, _ => none
+  | fuel + 1, cs =>
+    match cs with
+    | 'N' :: r => some (.null, r)
+    | 'T' :: r => some (.true_, r)
+    | 'F' :: r => some (.false_, r)
+    | 'c' :: r => some (.comma, r)
+    | 'k' :: r => some (.colon, r)
+    | 'L' :: r => (decJV (r.length + 1) r).map fun (v, r) => (.lit v, r)
+    | 'E' :: r => (decJV (r.length + 1) r).map fun (v, r) => (.expr v, r)
+    | 'P' :: r => (decJV (r.length + 1) r).map fun (v, r) => (.paren v, r)
+    | 'A' :: r => do
+        let (d, r) ← takeUntilSemi [] r
+        let n ← natOfDecChars d
+        let rec elems (k : Nat) (r : List Char) (acc : List TT) : Option (List TT × List Char) :=
+          match k with
+          | 0 => some (acc.reverse, r)
+          | k + 1 => match decTT fuel r with
+            | some (t, r) => elems k r (t :: acc)
+            | none => none
+        let (ts, r) ← elems n r []
+        pure (.arr ts, r)
+    | 'O' :: r => do
+        let (d, r) ← takeUntilSemi [] r
+        let n ← natOfDecChars d
+        let rec membs (k : Nat) (r : List Char) (acc : List TT) : Option (List TT × List Char) :=
+          match k with
+          | 0 => some (acc.reverse, r)
+          | k + 1 => match decTT fuel r with
+            | some (t, r) => membs k r (t :: acc)
+            | none => none
+        let (ts, r) ← membs n r []
+        pure (.obj ts, r)
+    | _ => none
+
+def decodeTT (s : String) : Option Spec.JsonMacro.TT :=
+  let cs := s.toList
+  match decTT (cs.length + 1) cs with
+  | some (t, []) => some t
+  | _ => none
+
+/-- the value `json!` built -/
+def jsonm : Handler := fun args impl =>
+  match args with
+  | [c, te] =>
+    match decodeTT te with
+    | some t =>
+      let po := poOfTag c
+      let spec := match Spec.JsonMacro.shape t with
+        | some l =>
+          let s := "S" ++ encJV (Spec.JsonMacro.eval po l)
+          if s == impl then none else some s!"C18 json!: structural evaluation of the literal gives {s}"
+        | none => none
+      { model := showOpt (Model.JsonMacro.jsonMacro po t), spec := spec }
+    | none => bad "decode"
+  | _ => bad "arity"
+
+/-- `from_str` of the equivalent JSON text: the parser model runs on the text; the literal's
+    structural evaluation must be what the parser returned -/
+def jsonp : Handler := fun args impl =>
+  match args with
+  | [c, te, th] =>
+    match decodeTT te, bytesOfHex th with
+    | some t, some text =>
+      let cfg := Mach.cfgOfTag c
+      let spec := match Spec.JsonMacro.shape t with
+        | some l =>
+          let s := "V" ++ encJV (Spec.JsonMacro.eval cfg.po l)
+          if s == impl then none else some s!"C18 json!: parsing the equivalent JSON text must give the structural evaluation {s}"
+        | none => some "C18 json!: the harness paired a JSON text with a token tree that is not JSON-shaped"
+      { model := Mach.runShow cfg .str .value text, spec := spec }
+    | _, _ => bad "decode"
+  | _ => bad "arity"
+
+/-- the generated program with the `json!` invocations compiled and ran -/
+def jsonmbuild : Handler := fun args _ =>
+  match args with
+  | [_, _] => { model := "OK" }
+  | _ => bad "arity"
+
+def handlers : List (String × Handler) :=
+  [("ptr", ptr), ("ptrmut", ptrmut), ("vget", vget), ("vindex", vindex), ("vindexmut", vindexmut), ("vtake", vtake),
+   ("peq", peq), ("jsonm", jsonm), ("jsonp", jsonp), ("jsonmbuild", jsonmbuild)]
 
 end SJ.Drv.C18
